@@ -5,15 +5,7 @@ import os
 from . import tlc
 
 
-def validate_chunks(ctx, module, tag, traces, chunk=2000, extra_data=None, max_procs=None, timeout=1800, **kw):
-    """Returns {global trace index (0-based): diagnostics} for the traces that were not accepted."""
-    if not traces:
-        return {}
-    hist = ctx.notes.setdefault('event_histogram', {})
-    for tr in traces:
-        for r in tr:
-            k = str(r.get('ev')) + ((':' + str(r.get('kind'))) if r.get('kind') is not None and isinstance(r.get('kind'), str) else '')
-            hist[k] = hist.get(k, 0) + 1
+def _run_chunks(ctx, module, tag, traces, chunk, extra_data, max_procs, timeout, kw):
     chunks = [(i, traces[i:i + chunk]) for i in range(0, len(traces), chunk)]
     max_procs = max_procs or min(len(chunks), max(1, (os.cpu_count() or 4)))
     bad = {}
@@ -30,6 +22,45 @@ def validate_chunks(ctx, module, tag, traces, chunk=2000, extra_data=None, max_p
         for start, b in ex.map(one, list(enumerate(chunks))):
             for tid, why in b.items():
                 bad[start + tid - 1] = why
+    return bad
+
+
+def is_advisory(why):
+    return bool(why and len(why[0]) > 2 and str(why[0][2]).startswith('spec: '))
+
+
+def validate_chunks(ctx, module, tag, traces, chunk=2000, extra_data=None, max_procs=None, timeout=1800, relax=None, **kw):
+    """Returns {global trace index (0-based): diagnostics} for the traces that violate a clause of the PROPERTY.
+
+    Two levels of clauses.  A trace spec describes what the implementation does, which is more than what the property demands
+    (sweep order, exact intermediate dimensions, which augmenting paths, exact post-states of a rewrite ...).  Clauses of that
+    kind are guarded by `Strict` in the trace spec and their diagnostic starts with "spec: ".  Pass 1 validates every trace
+    against the full specification (Data.strict = TRUE).  A trace rejected by a "spec: " clause is validated again with
+    Data.strict = FALSE after `relax` has removed the events that only the strict clauses consume: if it is accepted, the
+    implementation deviates from the specification but the property clauses hold - reported as a non-fatal SPEC-DEVIATION line
+    and in the evidence; if it is rejected, the violation is reported with the property clause that failed."""
+    if not traces:
+        return {}
+    hist = ctx.notes.setdefault('event_histogram', {})
+    for tr in traces:
+        for r in tr:
+            k = str(r.get('ev')) + ((':' + str(r.get('kind'))) if r.get('kind') is not None and isinstance(r.get('kind'), str) else '')
+            hist[k] = hist.get(k, 0) + 1
+    ed = dict(extra_data or {})
+    bad = _run_chunks(ctx, module, tag, traces, chunk, dict(ed, strict=True), max_procs, timeout, kw)
+    adv = {i: why for i, why in bad.items() if is_advisory(why)}
+    if adv:
+        idxs = sorted(adv)
+        relaxed = [(relax(traces[i]) if relax else traces[i]) for i in idxs]
+        bad2 = _run_chunks(ctx, module, tag + 'r', relaxed, chunk, dict(ed, strict=False), max_procs, timeout, kw)
+        for j, i in enumerate(idxs):
+            if j in bad2:
+                if is_advisory(bad2[j]):
+                    raise RuntimeError(f'{module}: clause {bad2[j][0][2]!r} is marked "spec:" but is not guarded by Strict')
+                bad[i] = bad2[j]
+            else:
+                del bad[i]
+                ctx.deviation(str(adv[i][0][2]))
     return bad
 
 
